@@ -49,9 +49,11 @@ GEN_THOROUGH = [
     ("G3c", "Q_Universe", "Q_QNames", "S3_QTypes", 2, 3, ["p4"], [], "{FALSE}"),
 ]
 
-PRIORITY = ["last-nsec3-covers-everything", "encloser-may-be-delegation-or-dname", "rfc6840-type-at-delegation", "optout-cover-for-any-claim",
-            "ds-optout-encloser-unproven", "nodata-at-apex-unproven", "wildcard-answer-judged-as-nodata",
-            "zone-unchecked-without-soa"]
+# fixed order in which alternative explanations are attributed: Opt-Out first (where an Opt-Out record is
+# involved that is the likeliest route), then from the narrowest clause to the broadest
+PRIORITY = ["optout-cover-for-any-claim", "rfc6840-type-at-delegation", "nodata-at-apex-unproven",
+            "wildcard-answer-judged-as-nodata", "ds-optout-encloser-unproven", "encloser-may-be-delegation-or-dname",
+            "zone-unchecked-without-soa", "last-nsec3-covers-everything"]
 
 
 def nm(n):
